@@ -215,6 +215,14 @@ def r17_4(run):
             cfg = build_cfg(run, ast_)
             tests = [n for n, s in cfg.stmt.items() if cfg.label[n] == "If" and f"{cd} is self.data" in norm(s) and "constant" in norm(s)]
             ok = any(cfg.edge_dominates(t, "true", cfg.node_for(r)) for t in tests)
+            for label, assume in (("an explicit, different constant= was given", {"constant is None": False, "self.constant is constant": False}),
+                                  ("a cast produced a new array", {f"{cd} is self.data": False})):
+                c2 = build_cfg(run, ast_, assume)
+                n2 = c2.node_for(r)
+                dead = n2 is None or not c2.reachable(n2)
+                run.ob("R17.4", loc(ast_, r), ast_.short, f"astype does not return self when {label}", dead,
+                       f"`return self` is dead under {assume}" if dead else
+                       f"astype can hand back the (graph-attached, unchanged) original although {label}")
             run.ob("R17.4", loc(ast_, r), ast_.short, "astype returns self only if no cast happened and the flag matches", ok,
                    "guarded by `cast_data is self.data and (constant is None or self.constant is constant)`" if ok else
                    "astype can return the (graph-attached) original although a change was requested")
